@@ -527,3 +527,33 @@ func init() {
 		return nil
 	}
 }
+
+func init() {
+	// sort.Search(n, f): the smallest index in [0,n] at which f becomes true (binary search; assumes f monotone).
+	builtins["sort.Search"] = func(x *Exec, s *State, r *Value, a []*Value, c *ast.CallExpr) []*Value {
+		n := a[0].T
+		res := Fresh("sort.search", SInt)
+		s.Assume(And(Le(Zero, res), Le(res, n)))
+		if a[1].K == KFunc && a[1].Fn != nil && a[1].Fn.Lit != nil {
+			evalAt := func(i *Term, guard *Term) *Term {
+				tmp := s.Clone()
+				tmp.Assume(guard)
+				x.specMode++
+				vs := x.callClosure(tmp, a[1].Fn, []*Value{prim(i, tGoInt)}, c.Pos())
+				x.specMode--
+				if len(vs) == 1 && vs[0].K == KPrim && vs[0].T.S == SBool {
+					return vs[0].T
+				}
+				return nil
+			}
+			if t := evalAt(res, Lt(res, n)); t != nil {
+				s.Assume(Implies(Lt(res, n), t))
+			}
+			if t := evalAt(Sub(res, One), Gt(res, Zero)); t != nil {
+				s.Assume(Implies(Gt(res, Zero), Not(t)))
+			}
+		}
+		x.Trusted["sort.Search returns the least index satisfying the predicate (the predicate is monotone over the sorted slice)"]++
+		return []*Value{prim(res, tGoInt)}
+	}
+}
